@@ -6,7 +6,7 @@
     value   : ["raw", hex] | ["ex", [["r",b] | ["s",w,k], …]]        (ex: value order, LSB first)
     object  : [vaddr, value, endian]
     chunk   : ["r", hex] (run of concrete bytes) | ["n", count] (run of unmapped bytes) | ["s", w, k]
-    cfg     : {"ps":…, "ptr":…, "top":…, "aslr":bool, "bare":bool}
+    cfg     : {"ps":…, "ptr":…, "top":…, "aslr":bool, "bare":bool, "thumb":bool (optional)}
     fix     : "repaired" | "none"
   ops
     {"op":"load.elf","fix":F,"cfg":C,"file":hex,"phdrs":[[type,offset,vaddr,filesz,memsz],…],"entry":e,
@@ -125,7 +125,10 @@ def cfgOfJson (j : Json) : Except String Cfg := do
   let top ← getNat c "top"
   let aslr ← getBool c "aslr"
   let bare ← getBool c "bare"
-  pure { ps := ps, ptr := ptr, top := top, aslr := aslr, bare := bare }
+  let thumb := match getBool c "thumb" with
+    | .ok b => b
+    | .error _ => false
+  pure { ps := ps, ptr := ptr, top := top, aslr := aslr, bare := bare, thumb := thumb }
 
 def fixOfJson (j : Json) : Except String Fix := do
   match j.getObjVal? "fix" with
@@ -134,14 +137,11 @@ def fixOfJson (j : Json) : Except String Fix := do
     let s ← v.getStr?
     if s == "none" then pure .none else if s == "repaired" then pure .repaired else throw "fix"
 
-/-- the window of the byte map of a zone, evaluated once per range on the object list. -/
-def imageOf (z : Zone) (a : Int) (n : Nat) : List (Option ByteDesc) :=
-  (List.range n).map (fun (k : Nat) => z.abs (a + (k : Int)))
-
-/-- same window, computed through `Zone.read` (linear in the window instead of window × objects). -/
+/-- the window `abs (a), …, abs (a+n-1)` of the byte map of a well-formed zone, computed through
+    `Zone.read` (`read_refines`: linear in the window). -/
 def imageRead (z : Zone) (a : Int) (n : Nat) : List (Option ByteDesc) := flattenItems (z.read a n)
 
-def result (j : Json) (t : Option Task) (ws : List WriteOp) (loadable : Option Bool) : Except String Json := do
+def result (j : Json) (fx : Fix) (t : Option Task) (ws : List WriteOp) (loadable : Option Bool) : Except String Json := do
   let ranges ← pairsOfJson j "ranges"
   let fetches ← pairsOfJson j "fetch"
   let empty := ws.any (fun w => w.2.1.len == 0)
@@ -152,9 +152,10 @@ def result (j : Json) (t : Option Task) (ws : List WriteOp) (loadable : Option B
   | some t =>
     let z := t.zone
     let wf := z.check
-    -- `Zone.read` refines `abs` on a well-formed zone (`read_refines`); fall back to `abs` otherwise
-    let img := ranges.map (fun r => chunks (if wf then imageRead z r.1 r.2 else imageOf z r.1 r.2))
-    let fe := fetches.map (fun r => jopt itemJson (fetch z r.1 r.2))
+    -- `Zone.read` refines `abs` on a well-formed zone (`read_refines`); a zone that is not well formed
+    -- (an empty write happened) is outside the theorems: no image is reported for it
+    let img := if wf then ranges.map (fun r => chunks (imageRead z r.1 r.2)) else []
+    let fe := if wf then fetches.map (fun r => jopt itemJson (fetch fx z r.1 r.2)) else []
     pure (Json.mkObj [
       ("task", Json.mkObj [("zone", jlist moJson z.map), ("cache", jlist jint z.cache), ("pc", jnat t.pc),
                            ("wf", Json.bool wf)]),
@@ -176,7 +177,7 @@ def opElf (j : Json) : Except String Json := do
   let entry ← getNat j "entry"
   let relocs ← relocsOfJson j "relocs"
   let img : ElfImage := { file := file, phdrs := ph, entry := entry, relocs := relocs }
-  result j (loadElf fx c img) (elfWrites fx c img) (some (decide (LoadableOK c img)))
+  result j fx (loadElf fx c img) (elfWrites fx c img) (some (decide (LoadableOK c img)))
 
 def peSecOfJson (e : Json) : Except String PeSection := do
   let p ← e.getArr?
@@ -196,7 +197,7 @@ def opPe (j : Json) : Except String Json := do
   let stack ← getNat j "stack"
   let iat ← relocsOfJson j "iat"
   let img : PeImage := ⟨file, base, salign, secs, entry, stack, iat⟩
-  result j (some (loadPe fx c img)) (peWrites fx c img) none
+  result j fx (loadPe fx c img) (peWrites fx c img) none
 
 def machSegOfJson (e : Json) : Except String MachSeg := do
   let p ← e.getArr?
@@ -214,7 +215,7 @@ def opMacho (j : Json) : Except String Json := do
   let slots ← relocsOfJson j "slots"
   let entry ← getNat j "entry"
   let img : MachImage := { file := file, segs := segs, stack := stack, slots := slots, entry := entry }
-  result j (some (loadMach c img)) (machWrites c img) none
+  result j (← fixOfJson j) (some (loadMach c img)) (machWrites c img) none
 
 def opRecords (j : Json) : Except String Json := do
   let rs ← (← getArr j "records").toList.mapM (fun e => do
@@ -224,7 +225,7 @@ def opRecords (j : Json) : Except String Json := do
     | _ => throw "record")
   let entry ← getNat j "entry"
   let pcbits ← getNat j "pcbits"
-  result j (some (loadRecords rs entry pcbits)) (recordWrites rs) none
+  result j (← fixOfJson j) (some (loadRecords rs entry pcbits)) (recordWrites rs) none
 
 def opPage (j : Json) : Except String Json := do
   let ps ← getNat j "ps"
